@@ -824,7 +824,8 @@ def oracle_file(spec, tr, complete, mapped, o, man):
     got = read_fixed(o["text"])
     if got is None:
         return ["the written file is not a complete .gro file (count line / atom lines / box line)" + diagnose(o["text"])]
-    if got["title"] != spec["title"]:
+    # o["text"] is the output's BYTES (one character per byte); the input title was written as UTF-8
+    if got["title"] != spec["title"].encode("utf-8").decode("latin-1"):
         bad.append("title %r != input title %r" % (got["title"], spec["title"]))
     try:
         gbox = [float(x) for x in got["box"].split()]
@@ -1306,6 +1307,14 @@ def oracle(ctx, scale):
         fails += bool(bad)
         S["atom_number_wrap_case_atoms"] = sum(len(spec["species"][t]["aa_atoms"]) for t in spec["tokens"])
         molgen.purge()
+        # round 7 of the seeded changes: a title with multi-byte characters (character counts are not byte offsets
+        # for the writer's seeks) and a run of more than 128 consecutive copies of a two-residue species (chunked reads)
+        for spec, what in ((nonascii_title_spec(rs), "S case (non-ASCII title)"),
+                           (long_run_spec(rs), "S case (long run of a two-residue species)")):
+            _, bad = check_spec(ctx, spec, what)
+            fails += bool(bad)
+            S[spec["pattern"] + "_cases"] = S.get(spec["pattern"] + "_cases", 0) + 1
+            molgen.purge()
     S["sessions_x%d" % scale] = n
     S["pattern_histogram_x%d" % scale] = hist
     S["failures"] = S.get("failures", 0) + fails
@@ -1338,6 +1347,29 @@ def empty_title_spec(rs):
         spec = gen_spec(rs, kind="normal")
     spec["title"] = ""
     spec["pattern"] = "empty_title"
+    return spec
+
+
+def nonascii_title_spec(rs):
+    """an input whose title holds two- and three-byte UTF-8 characters: the output must carry the same title line,
+    the count line and the box line (S only: the byte model of K is ASCII)"""
+    spec = empty_title_spec(rs)
+    spec["title"] = "Syst\u00e8me d'essai \u00e0 300 K \u2013 bo\u00eete p\u00e9riodique \u03b1\u03b2"
+    spec["pattern"] = "nonascii_title"
+    return spec
+
+
+def long_run_spec(rs):
+    """more than 128 consecutive copies of a two-residue species, then solvent, then three more copies"""
+    spec = gen_spec(rs, kind="normal")
+    def dimers(sp_):
+        return [k for k, sp in enumerate(sp_["species"]) if k in sp_["load_order"] and
+                len(set(a[2] for a in sp["cg_atoms"])) == 2 and len(sp["cg_atoms"]) >= 3]
+    while not dimers(spec) or not in_domain(spec, [op[1] for op in spec["ops"] if op[0] == "end"]):
+        spec = gen_spec(rs, kind="normal")
+    dk = dimers(spec)[0]
+    spec = relayout(rs, spec, [dk] * 140 + ["W"] * 3 + [dk] * 3, [dk])
+    spec["pattern"] = "long_run"
     return spec
 
 
